@@ -486,12 +486,69 @@ def ext_call(it, dotted, args, kw, n):
         return Sym('typing')
     if dotted.startswith('logging.') or dotted.startswith('logger.'):
         return Sym('logging')
+    if dotted.startswith('re.') and last in ('compile', 'match', 'fullmatch', 'search', 'findall', 'sub', 'split') \
+            and all(isinstance(a, K) for a in args) and all(isinstance(x, K) for x in kw.values()):
+        import re as _re
+        try:
+            r = getattr(_re, last)(*[a.v for a in args], **{k: x.v for k, x in kw.items()})
+        except _re.error as e:
+            raise RaiseEx('error', f're: {e}')
+        return wrap_re(r)
     if dotted == 'zlib.crc32':
         if isinstance(args[0], K):
             import zlib
             return K(zlib.crc32(args[0].v))
         return Term('zlib.crc32', args[0])
     return Term('ext:' + dotted, *args, *[Term('kw', K(k), v) for k, v in sorted(kw.items())])
+
+
+class ReObj:
+    """a compiled pattern or a match object of the standard `re` module, applied to constants only (constant folding)"""
+    not_none = True
+
+    def __init__(self, obj):
+        self.obj = obj
+
+    def abs_key(self):
+        return ('re', repr(self.obj))
+
+    def abs_truth(self, it):
+        return True
+
+    def abs_attr(self, it, a, node):
+        target = getattr(self.obj, a, None)
+        if target is None:
+            return None
+        if not callable(target):
+            return wrap_re(target)
+
+        def call(it_, args, kw, n, target=target):
+            if not all(isinstance(x, K) for x in args) or not all(isinstance(x, K) for x in kw.values()):
+                raise Fail(f'regular expression applied to a symbolic value ({a})')
+            try:
+                return wrap_re(target(*[x.v for x in args], **{k: x.v for k, x in kw.items()}))
+            except (IndexError, TypeError) as e:
+                raise RaiseEx(type(e).__name__, str(e)[:60])
+        return Native(call, 're.' + a)
+
+    def abs_item(self, it, i, node):
+        if isinstance(i, K):
+            try:
+                return wrap_re(self.obj[i.v])
+            except (IndexError, TypeError) as e:
+                raise RaiseEx(type(e).__name__, str(e)[:60])
+        raise Fail('match[...] with a symbolic index')
+
+
+def wrap_re(r):
+    import re as _re
+    if isinstance(r, (_re.Pattern, _re.Match)):
+        return ReObj(r)
+    if isinstance(r, (list, tuple)) and any(isinstance(x, (list, tuple)) for x in r):
+        return ListV([wrap_re(x) for x in r], tup=isinstance(r, tuple))
+    if isinstance(r, list):
+        return ListV([K(x) for x in r])
+    return K(r)
 
 
 # ------------------------------------------------------------------ attributes / methods of plain values
